@@ -19,6 +19,7 @@ const (
 	SInt
 	SArray
 	SUninterp
+	SData // tuple datatype (composite map keys)
 )
 
 type Sort struct {
@@ -27,6 +28,7 @@ type Sort struct {
 	Idx  *Sort
 	Elem *Sort
 	Name string
+	Fields []*Sort // SData
 }
 
 var (
@@ -63,6 +65,22 @@ func Uninterp(name string) *Sort {
 	s := &Sort{Kind: SUninterp, Name: name}
 	unSorts[name] = s
 	return s
+}
+
+var dataSorts = map[string]*Sort{}
+
+// TupleSort is a datatype with one constructor mk$<name> over the given field sorts.
+func TupleSort(name string, fields []*Sort) *Sort {
+	if s, ok := dataSorts[name]; ok {
+		return s
+	}
+	s := &Sort{Kind: SData, Name: name, Fields: fields}
+	dataSorts[name] = s
+	return s
+}
+
+func (c *Ctx) MkTuple(s *Sort, fields ...*Term) *Term {
+	return c.intern(&Term{Op: "mktuple", Name: s.Name, Args: fields, Sort: s})
 }
 
 func (s *Sort) String() string {
@@ -1106,6 +1124,7 @@ type printer struct {
 	funcs   map[string]bool
 	funcOrd []string
 	sorts   map[string]bool
+	datas   map[string]*Sort
 	lets    map[int]string // let-bound shared subterms inside the quantifier / definition being printed
 	cache   map[int]string // rendering of closed terms that were not hoisted
 }
@@ -1174,6 +1193,19 @@ func (c *Ctx) Script(logic string, asserts []*Term, getModelFor []*Term) string 
 	sort.Strings(sn)
 	for _, s := range sn {
 		fmt.Fprintf(&out, "(declare-sort %s 0)\n", s)
+	}
+	dn := make([]string, 0, len(p.datas))
+	for n := range p.datas {
+		dn = append(dn, n)
+	}
+	sort.Strings(dn)
+	for _, n := range dn {
+		d := p.datas[n]
+		fs := make([]string, len(d.Fields))
+		for i, f := range d.Fields {
+			fs[i] = fmt.Sprintf("(%s$f%d %s)", n, i, f)
+		}
+		fmt.Fprintf(&out, "(declare-datatypes ((%s 0)) (((mk$%s %s))))\n", smtSym(n), n, strings.Join(fs, " "))
 	}
 	cn := make([]string, 0, len(p.consts))
 	for k := range p.consts {
@@ -1247,6 +1279,14 @@ func (p *printer) noteSort(s *Sort) {
 	switch s.Kind {
 	case SUninterp:
 		p.sorts[s.Name] = true
+	case SData:
+		if p.datas == nil {
+			p.datas = map[string]*Sort{}
+		}
+		p.datas[s.Name] = s
+		for _, f := range s.Fields {
+			p.noteSort(f)
+		}
 	case SArray:
 		p.noteSort(s.Idx)
 		p.noteSort(s.Elem)
@@ -1460,6 +1500,12 @@ func (p *printer) render(t *Term, sub func(*Term) string) string {
 		return fmt.Sprintf("((_ sign_extend %s) %s)", t.Name, sub(t.Args[0]))
 	case "constarr":
 		return fmt.Sprintf("((as const %s) %s)", t.Sort, sub(t.Args[0]))
+	case "mktuple":
+		parts := make([]string, len(t.Args))
+		for i, a := range t.Args {
+			parts[i] = sub(a)
+		}
+		return "(mk$" + t.Name + " " + strings.Join(parts, " ") + ")"
 	case "int2bv":
 		return fmt.Sprintf("((_ int2bv %s) %s)", t.Name, sub(t.Args[0]))
 	case "sbv2int":
